@@ -14,9 +14,10 @@ import (
 // observation aid: its verdict is ignored and it writes no evidence itself.
 func TestMonitorUnderCoverage(t *testing.T) {
 	args := strings.Fields(os.Getenv("VERIF_COVER_ARGS"))
-	if len(args) == 0 {
-		t.Skip("VERIF_COVER_ARGS not set")
+	if len(args) == 0 || os.Getenv("VERIF_COVER_RUNNING") != "" {
+		t.Skip("VERIF_COVER_ARGS not set (or already inside a coverage run)")
 	}
+	os.Setenv("VERIF_COVER_RUNNING", "1") // a re-executed test binary must stay inert
 	os.Args = append([]string{"mon"}, args...)
 	if rc := realMain(); rc != 0 {
 		t.Logf("monitor returned %d under coverage (ignored)", rc)
